@@ -576,7 +576,7 @@ fn stale_state(cx: &mut Ctx) {
     // locate(): debug_assert cursor <= offset; state replaced or cursor advanced
     if let Some(l) = sc.method("LinearLocator", "locate") {
         let t = sm::tsx(&l.block);
-        if t.contains("let(column,new_state)=self.locate_inner(offset);matchnew_state{Some(state)=>self.state=state,_=>self.state.cursor=offset,}") {
+        if t.contains("let(column,new_state)=self.locate_inner(offset);matchnew_state{Some(state)=>self.state=state,_=>self.state.cursor=offset}") {
             cx.ok(rule, "locate(): the state is replaced by the new line's state, or only the cursor advances");
         } else {
             cx.fail(rule, &format!("{}/locate", rule), &sc.loc(l), "locate() does not install the new state / advance the cursor");
